@@ -1,5 +1,5 @@
 (* Entry points evaluated by the correspondence harness (props/C18.py). *)
-From PV Require Export C18.Spec.
+From PV Require Export C18.Spec C18.Handle.
 
 Definition jv_zs (l : list Z) : jv := JL (map JZ l).
 Definition jv_resv (r : resv) : jv :=
@@ -70,3 +70,18 @@ Definition run_case (k : kernel) (pid : Z) (r : req) : jv :=
 Definition run_status (pre : list bytes) (post : bytes) (mask : list Z) (ncpu : Z) : jv :=
   let data := k_status_gen (concat (map (fun l => l ++ [10]) pre)) post mask in
   JL [ JB data; jv_outcome jv_zs (parse_status data ncpu) ].
+
+(* one set form through a Process / Popen handle whose pid is now occupied by [occ]:
+   [status file of the occupant; answer; kernel afterwards; platform layer entered?;
+    handle flags afterwards (_gone, _pid_reused); demanded (answer, kernel) or None; wf] *)
+Definition run_hist (h : handle) (occ : occupant) (k : kernel) (r : req) : jv :=
+  let '(o, k1, h1, entered) := hcall h occ r k in
+  let pid := h_pid h in
+  JL [ JL (match kget pid k with Some p => [JL [JZ pid; JB (k_status p)]] | None => [] end);
+       jv_out pid jv_resv o; jv_kernel_rel k k1; jbool entered;
+       JL [jbool (h_gone h1); jbool (h_reused h1)];
+       match spec_hcall h occ r k with
+       | Some (so, sk) => JL [jv_out pid jv_resv so; jv_kernel_rel k sk]
+       | None => jnone
+       end;
+       jbool (wf_allb k) ].
